@@ -71,6 +71,8 @@ OnObservers(st, e) ==
   LET ss == {e.ss[i] : i \in 1..Len(e.ss)} IN
   IF \E x \in ss : ~Known(st, x) THEN RR(st, "C12:observer-entry-refers-to-a-released-session")
   ELSE IF \E x \in ss : x \notin Live(st) THEN RR(st, "C12:observer-entry-refers-to-a-deleted-session")
+  \* the loss of a session ends every observation it had (C11): none of them is left hanging off the closed session, keeping it from being reclaimed
+  ELSE IF \E x \in ss : x \in st.closed THEN RR(st, "C12:observation-left-hanging-off-a-session-whose-peer-has-gone")
   ELSE RR(SetHolders_do(st, "obs", ss), "")
 
 OnIoDone(st, e) ==
